@@ -626,6 +626,12 @@ def foldOr (e : Expr) (p : Bool) (g : Code) : Code :=
     | .throws m => emitThrow m
   else g
 
+/-- compiler.processKey (compiler_expr.go:1779): a constant key that evaluates without throwing is not emitted -/
+def foldsToKey (k : Expr) : Bool :=
+  constant k && (match evalConst k with
+                 | .val _ => true
+                 | .throws _ => false)
+
 /-- stands for "compilation stops with a SyntaxError here" (nothing is emitted, nothing runs) -/
 def iDead : Instr := ⟨"<syntax-error>", 0, 0, 0, 0, true⟩
 
@@ -789,7 +795,7 @@ def emitProps (cfg : Cfg) : Props → Code
   | .nil => .nil
   | .keyed _ v rest => cat [foldOr v true (emitG cfg v true), .ins (op21 "putProp"), emitProps cfg rest]
   | .computed k v rest =>
-      if constant k then cat [foldOr v true (emitG cfg v true), .ins (op21 "putProp"), emitProps cfg rest]   -- processKey :1779
+      if foldsToKey k then cat [foldOr v true (emitG cfg v true), .ins (op21 "putProp"), emitProps cfg rest]   -- processKey :1779
       else cat [emitG cfg k true, .ins (op11 "_toPropertyKey"), foldOr v true (emitG cfg v true), .ins (op31 "_setElem1"),
                 emitProps cfg rest]
 def emitQuasis (cfg : Cfg) : Quasis → Code
